@@ -39,6 +39,7 @@ def dispatch (op : String) : Option Handler :=
   | "bin8" => some C08.bin8
   | "comm8" => some C08.comm8
   | "un8" => some C08.un8
+  | "nary8" => some C08.nary8
   | _ => none
 
 def processLine (line : String) : String :=
